@@ -17,6 +17,75 @@ REPACTS = ["transpose_df", "transpose_lead", "fortran", "strided", "cast32", "bi
 CIRC = {"dm", "dp", "dpm"}
 
 
+def derived_objects(ctx, ops):
+    """Session.tla's derivation steps: the session continues on what a public operation, a selection, arithmetic or a concatenation
+    returned (length-1 and dropped dimensions, scalar coordinates left behind, `part` / `site` dimensions, float32 results, read-only
+    and non-contiguous buffers, descending time).  Every operation on the derived object must equal the operation on a freshly
+    constructed object holding the same labelled values; the dimensions of the derived object must be the ones the model predicts."""
+    maxlen = 2
+    cfg = S.session_cfg("c05_derive_%d" % maxlen, ["op"], [], [], maxlen, derives=sorted(S.DERIVE))
+    r = ctx.tlc("Session", cfg, workers=4, label="derivation programs, length <= %d" % maxlen)
+    for inv in r.violated:
+        if inv != "EmitInv":
+            ctx.violation({"where": "spec", "invariant": inv}, "Session.tla: %s violated" % inv, r.cex[:3000])
+    progs, seen = [], set()
+    for v in r.vectors:
+        acts = tuple(p["arg"] for p in v["path"] if p["act"] == "derive")
+        if acts and acts not in seen:
+            seen.add(acts)
+            progs.append((acts, set(v["ver"]["dims"])))
+    progs.sort()
+    ctx.note("derivation_programs_from_tlc", len(progs))
+    base = S.make(version=1)
+    allops = ops + S.FIT_OPS
+    inapplicable = 0
+    for acts, dims in progs:
+        if ctx.quick and len(acts) == 2 and hash((acts, ctx.seed)) % 12:
+            continue
+        try:
+            x = base
+            for a in acts:
+                x = S.DERIVE[a](x)
+        except Exception:  # noqa   (e.g. picking the third of one direction: the program does not exist; crash-freedom is C20's)
+            inapplicable += 1
+            continue
+        if set(x.dims) != dims:
+            ctx.violation({"stage": "derived", "path": list(acts), "clause": "DimsAfter"},
+                          "after %s the object has dimensions %s, the model says %s" % (list(acts), list(x.dims), sorted(dims)))
+            continue
+        f = S.fresh(x)
+        for op in allops:
+            if ctx.quick and hash((acts, op, ctx.seed)) % (2 if len(acts) == 1 else 4):
+                continue
+            try:
+                exp, eerr = S.project(S.call(f, op)), None
+            except Exception as ex:  # noqa
+                exp, eerr = None, type(ex).__name__
+            ctx.case(("derived", acts, op), True)
+            try:
+                got, gerr = S.project(S.call(x, op)), None
+            except Exception as ex:  # noqa
+                got, gerr = None, "%s: %s" % (type(ex).__name__, str(ex)[:200])
+            if eerr or gerr:
+                if bool(eerr) != bool(gerr):
+                    ctx.violation({"stage": "derived", "op": op, "path": list(acts), "raised": (gerr or eerr).split(":")[0]},
+                                  "%s after %s: %s on the derived object, %s on a fresh object with the same labelled values" %
+                                  (op, list(acts), gerr or "works", eerr or "works"))
+                else:
+                    ctx.replayed()
+                continue
+            rel = 3e-5 if str(x.dtype) == "float32" else 1e-9
+            if op in ("fit_jonswap", "fit_gaussian"):
+                rel = 1e-4
+            diff = S.circular_same(got, exp, rel) if op in CIRC else S.same(got, exp, rel, abs_=1e-7 if rel > 1e-9 else 1e-9)
+            if diff is None:
+                ctx.replayed()
+            else:
+                ctx.violation({"stage": "derived", "op": op, "path": list(acts)},
+                              "%s on the object returned by %s differs from %s on a fresh object with the same labelled values: %s" % (op, list(acts), op, diff))
+    ctx.note("derivation_programs_not_applicable", inapplicable)
+
+
 def run(ctx):
     setup_repo_imports()
     import warnings
@@ -115,6 +184,7 @@ def run(ctx):
             else:
                 ctx.violation({"op": op, "path": list(acts), "grid": "partial"},
                               "%s on a partial direction sector differs between the canonical representation and %s: %s" % (op, list(acts), diff), {"rep": rep})
+    derived_objects(ctx, ops)
     if programs:
         ctx.sample({"kind": "program", "actions": list(programs[len(programs) // 2][0]), "rep": programs[len(programs) // 2][1], "ops": ops[:6]})
     ctx.assume("energies are integer-valued (float32-exact) so a dtype cast does not change the contents; float32 results compared at 3e-5")
